@@ -258,7 +258,7 @@ def _outcome(P, ak, fn, args):
     try:
         r = fn(*args)
     except Exception as e:     # noqa
-        return ("error", type(e).__name__, str(e)[:160])
+        return ("error", type(e).__name__, " ".join(str(e).split())[:700])
     return ("value", _norm(P, ak, r), None)
 
 
